@@ -1,5 +1,5 @@
 """Correspondence for the source-to-Lean translator (gen/py2lean.py) and its run-time library (lean/Asn1/PyLite.lean):
-the *translation* of a function (driver ops KTAG, KLEN, KTOBYTES, KOIDENC, KOIDDEC, KTIME, KREAL, KREALDEC) and the function itself in /repo are
+the *translation* of a function (driver ops KTAG, KLEN, KTOBYTES, KOIDENC, KOIDDEC, KTIME, KREAL, KREALDEC, KDECLEN) and the function itself in /repo are
 run on the same arguments; the Python builtins PyLite transcribes (PYOP) are compared with CPython.
 
 A disagreement means the translator or PyLite misrepresents the code (machinery fault to repair) - it is reported as a
@@ -47,7 +47,7 @@ def _py(f, *a, **kw):
     return ('ok', r)
 
 
-def check(rep, drv, seed, n=400, which=('encodeTag', 'encodeLength', 'toBytes', 'oidEncode', 'oidDecode', 'timeCanon', 'realBin', 'realDec')):
+def check(rep, drv, seed, n=400, which=('encodeTag', 'encodeLength', 'toBytes', 'oidEncode', 'oidDecode', 'timeCanon', 'realBin', 'realDec', 'decodeLength')):
     """returns number of cases compared"""
     from pyasn1.codec.ber import encoder as benc, decoder as bdec
     from pyasn1.compat import integer
@@ -283,6 +283,54 @@ def check(rep, drv, seed, n=400, which=('encodeTag', 'encodeLength', 'toBytes', 
                 return ['no-value']
             impl = _py(real)
             cmp_('realDec', 'KREALDEC %d %s' % (fo, ' '.join(str(b) for b in body)), impl)
+    if 'decodeLength' in which:
+        from pyasn1 import debug as _debug
+        from pyasn1.codec.der import decoder as ddec
+        seen = []
+
+        def printer(msg):
+            if 'value length decoded into' in msg:
+                seen.append(int(msg.rsplit(' ', 1)[1]))
+        for i in range(n):
+            indef = rng.random() < 0.6
+            r = rng.random()
+            if r < 0.3:
+                fo = rng.randrange(0, 128)
+                enc_len = []
+            elif r < 0.4:
+                fo = 128
+                enc_len = []
+            else:
+                size = rng.choice([1, 1, 2, 2, 3, 4, 7, 8, 8, 9, 20, 126, 127])
+                fo = 128 + size
+                lead = rng.choice([0, 0, 1, 0x7f, 0x80, 0xff, rng.randrange(256)])
+                enc_len = [lead] + [rng.choice([0, 0xff, rng.randrange(256)]) for _ in range(size - 1)]
+                if rng.random() < 0.5:
+                    enc_len = [0] * rng.randrange(0, size) + enc_len
+                    enc_len = enc_len[:size]
+            cut = False
+            if fo > 128 and rng.random() < 0.1:
+                enc_len = enc_len[:rng.randrange(0, fo - 128)]      # the stream ends inside the length octets
+                cut = True
+            data = bytes([0x24 if fo == 128 else 0x04, fo] + enc_len) + (b'' if cut else bytes(40))
+            dec = (bdec if indef else ddec)
+
+            def real():
+                del seen[:]
+                _debug.setLogger(_debug.Debug('decoder', printer=printer))
+                try:
+                    try:
+                        dec.decode(data)
+                    except Exception:  # noqa
+                        if not seen:
+                            raise
+                finally:
+                    _debug.setLogger(None)
+                return seen[:1]
+            impl = _py(real)
+            if impl[0] == 'err' and impl[1] == 'EndOfStreamError':
+                impl = ('err', 'SubstrateUnderrunError')
+            cmp_('decodeLength', 'KDECLEN %d %d %s' % (1 if indef else 0, fo, ' '.join(map(str, enc_len))), impl)
     rep.count('kernel_correspondence', done)
     return done
 
